@@ -140,6 +140,11 @@ fn main() {
         "malformed" => {
             let mut stats: BTreeMap<String, u64> = BTreeMap::new();
             for e in selected(&reg, &a) {
+                // sequences of zero-sized elements: a hostile length costs no input bytes, so neither
+                // side can print the result (2^61 elements); outside what this suite can observe
+                if e.tags.contains(&"zstseq") {
+                    continue;
+                }
                 for &v in &e.versions {
                     let mut r = Rng::new(name_seed(a.seed, &e.name, 1000 + v as u64));
                     for i in 0..a.cases {
@@ -150,17 +155,127 @@ fn main() {
                         };
                         for m in mutate::mutations(&mut r, &base, 4) {
                             out.flush().unwrap();
-                            let reply = (e.dec)(v, &m);
+                            let reply = isolated(|| (e.dec)(v, &m));
                             let class = reply.split(|c| c == ' ' || c == ')').next().unwrap_or("").to_string()
                                 + if reply.contains("invalid-") { "+invalid" } else { "" };
                             *stats.entry(format!("mal{}", class)).or_default() += 1;
                             writeln!(out, "(dec @{} {} {})\t{}", e.name, v, hex(&m), reply).unwrap();
-                            if reply.starts_with("(panic") && !reply.starts_with("(panic oom") {
+                            if (reply.starts_with("(panic") && !reply.starts_with("(panic oom")) || reply.starts_with("(abort 11") || reply.starts_with("(abort 7") {
                                 writeln!(out, "!C06 panic type={} ver={} bytes={} got={}", e.name, v, hex(&m), reply).unwrap();
                             }
                             if reply.contains("invalid-") {
                                 writeln!(out, "!C06 invalid-value type={} ver={} bytes={} got={}", e.name, v, hex(&m), reply).unwrap();
                             }
+                        }
+                    }
+                }
+            }
+            for (k, v) in stats {
+                writeln!(out, "#stat {} {}", k, v).unwrap();
+            }
+        }
+        // S-container: file bytes and loading for the schema-less and plain containers vs the model;
+        // header corruptions; direct round-trip oracle on all four containers (C01)
+        "files" => {
+            let mut stats: BTreeMap<String, u64> = BTreeMap::new();
+            for e in selected(&reg, &a) {
+                let cur = e.current();
+                let mut r = Rng::new(name_seed(a.seed, &e.name, 2000));
+                for i in 0..a.cases {
+                    for kind in Kind::all() {
+                        let sz = if i % 5 == 4 { a.size * 4 } else { a.size };
+                        let (wire, canon, res) = (e.gen_save)(&mut r, sz, cur, kind);
+                        let bytes = match res {
+                            Ok(b) => b,
+                            Err(reply) => {
+                                writeln!(out, "!C01 save-failed kind={} type={} ver={} value={} got={}", kind.name(), e.name, cur, canon, reply).unwrap();
+                                continue;
+                            }
+                        };
+                        *stats.entry(format!("file-{}", kind.name())).or_default() += 1;
+                        match kind {
+                            Kind::NoSchema => {
+                                writeln!(out, "(file noschema @{} {} {} -)\t(ok {})", e.name, cur, wire, hex(&bytes)).unwrap();
+                            }
+                            Kind::Plain => {
+                                let sb = (e.schema_bytes)(cur, 2);
+                                writeln!(out, "(file plain @{} {} {} {})\t(ok {})", e.name, cur, wire, hex(&sb), hex(&bytes)).unwrap();
+                            }
+                            _ => {}
+                        }
+                        let reply = (e.load)(kind, cur, PASSWORD, &bytes);
+                        if kind == Kind::NoSchema {
+                            writeln!(out, "(loadfile noschema @{} {} {})\t{}", e.name, cur, hex(&bytes), reply).unwrap();
+                        }
+                        if !e.tags.contains(&"ignore") {
+                            // a compressed stream may leave trailer bytes unread; plain containers may not
+                            let ok = match kind {
+                                Kind::Plain | Kind::NoSchema => reply == format!("(ok {} 0)", canon),
+                                _ => reply.starts_with(&format!("(ok {} ", canon)),
+                            };
+                            if !ok {
+                                writeln!(out, "!C01 file-roundtrip kind={} type={} ver={} value={} got={}", kind.name(), e.name, cur, canon, reply).unwrap();
+                            }
+                        }
+                        // header corruptions (first 16 bytes): every position, a few replacement values
+                        if kind == Kind::NoSchema && i == 0 {
+                            for pos in 0..16.min(bytes.len()) {
+                                for delta in [1u8, 0x80, 0xff] {
+                                    let mut m = bytes.clone();
+                                    m[pos] = m[pos].wrapping_add(delta);
+                                    let reply = (e.load)(kind, cur, PASSWORD, &m);
+                                    writeln!(out, "(loadfile noschema @{} {} {})\t{}", e.name, cur, hex(&m), reply).unwrap();
+                                    *stats.entry("header-corruption".into()).or_default() += 1;
+                                    // a damaged magic must always be rejected (the other header fields are
+                                    // compared with the model: lower versions are legitimately accepted)
+                                    if pos < 9 && !reply.starts_with("(err general)") {
+                                        writeln!(out, "!C05 header-corruption-accepted type={} pos={} bytes={} got={}", e.name, pos, hex(&m[..16.min(m.len())]), reply).unwrap();
+                                    }
+                                }
+                            }
+                        }
+                    }
+                }
+            }
+            for (k, v) in stats {
+                writeln!(out, "#stat {} {}", k, v).unwrap();
+            }
+        }
+        // C07: every cut of saved files, all four containers; direct oracle + model for noschema
+        "cuts" => {
+            let mut stats: BTreeMap<String, u64> = BTreeMap::new();
+            for e in selected(&reg, &a) {
+                let cur = e.current();
+                let mut r = Rng::new(name_seed(a.seed, &e.name, 3000));
+                for i in 0..a.cases {
+                    for kind in Kind::all() {
+                        let (_wire, canon, res) = (e.gen_save)(&mut r, a.size, cur, kind);
+                        let bytes = match res {
+                            Ok(b) => b,
+                            Err(_) => continue,
+                        };
+                        if bytes.len() > 4096 {
+                            continue;
+                        }
+                        // with a schema the cut space is large: thin it out after the first case
+                        let step = if i == 0 || kind == Kind::NoSchema { 1 } else { 1 + bytes.len() / 64 };
+                        let mut k = 0;
+                        while k < bytes.len() {
+                            let p = &bytes[..k];
+                            let reply = (e.load)(kind, cur, PASSWORD, p);
+                            *stats.entry(format!("cut-{}-{}", kind.name(), reply.split(|c| c == ' ' || c == ')').next().unwrap_or(""))).or_default() += 1;
+                            if kind == Kind::NoSchema {
+                                writeln!(out, "(loadfile noschema @{} {} {})\t{}", e.name, cur, hex(p), reply).unwrap();
+                            }
+                            let same = reply.starts_with(&format!("(ok {} ", canon));
+                            if reply.starts_with("(panic") {
+                                writeln!(out, "!C07 truncation-panic kind={} type={} cut={}/{} got={}", kind.name(), e.name, k, bytes.len(), reply).unwrap();
+                            } else if reply.starts_with("(ok") && !(same && kind != Kind::Plain && kind != Kind::NoSchema) && !e.tags.contains(&"ignore") {
+                                writeln!(out, "!C07 truncation-accepted kind={} type={} cut={}/{} value={} got={}", kind.name(), e.name, k, bytes.len(), canon, reply).unwrap();
+                            } else if reply.starts_with("(ok") && e.tags.contains(&"ignore") && (kind == Kind::Plain || kind == Kind::NoSchema) {
+                                writeln!(out, "!C07 truncation-accepted kind={} type={} cut={}/{} value={} got={}", kind.name(), e.name, k, bytes.len(), canon, reply).unwrap();
+                            }
+                            k += step;
                         }
                     }
                 }
